@@ -8,7 +8,7 @@ Theorem C13_reference : forall u P, o_solvable u P = true <-> solvable (table_pr
 Proof. exact o_solvable_spec. Qed.
 
 Theorem C13_valid_oracle : forall u P S,
-  o_valid u P S = true <-> valid (table_provider u) P S (exempt P S).
+  o_valid u P S = true <-> valid (table_provider u) P S (exempt (table_provider u) P S).
 Proof. exact o_valid_spec. Qed.
 
 (* ---- the in-flight protocol of the candidates cache, over all schedules,
